@@ -888,6 +888,10 @@ class Builder(object):
 
         prefix += '/' + self.currentHouse.name #extra slashes are ignored
 
+        if name in serving.Server.Names:
+            msg = "ParseError: Building verb '%s'. Task '%s' already exists." % (command, name)
+            raise excepting.ParseError(msg, tokens, index)
+
         if rxa:
             if ':' in rxa:
                 host, port = rxa.split(':')
